@@ -252,7 +252,7 @@ func init() {
 				"unmanaged device leaves removed by an aggregated list-entry delete are not required to come back (the property speaks of paths the transaction touched on behalf of intents)"}})
 	}
 	registerE1("C08", &e1Config{checker: C08Checker{}, depth: [2]int{2, 3}, frags: choiceFrags, multi: choiceMulti, initials: choiceInitials,
-		deep: &deepPhase{names: []string{"ca1", "cab", "cb1", "cpc"}, depth: [2]int{3, 4}, initials: func() []*Initial { return choiceInitials()[:1] }}})
+		deep: &deepPhase{names: []string{"ca1", "cab", "cb1", "cpc", "cpvo"}, depth: [2]int{3, 4}, initials: func() []*Initial { return choiceInitials()[:1] }}})
 	// C09's alphabet also holds two cases of a choice: a re-applied intent next to a shadowed intent in the other case
 	c09Frags := func() (map[string]*Fragment, []string) {
 		fr, names := smallFrags()
